@@ -1,5 +1,5 @@
 (* One dispatcher for every view-based stream: build the view from its dump, then answer queries. *)
-From PG Require Import Lib.Io Model.View Model.Traversal Model.AlgoBasic Model.ShortestM Model.MstM Model.CondenseM Model.MatchM Model.FlowM Model.CutM Model.TravExtra Model.MiscM Model.PageRankM Model.DsaturM Model.FasM.
+From PG Require Import Lib.Io Model.View Model.Traversal Model.AlgoBasic Model.ShortestM Model.MstM Model.CondenseM Model.MatchM Model.FlowM Model.CutM Model.TravExtra Model.MiscM Model.PageRankM Model.DsaturM Model.FasM Model.SteinerM.
 
 Definition answer (debug : bool) (v : view) (o : line) : list line :=
   let code := fst o in
@@ -18,6 +18,7 @@ Definition answer (debug : bool) (v : view) (o : line) : list line :=
   else if Nat.ltb code 60 then [(2, [])]
   else if Nat.eqb code 61 then dsatur_query v o
   else if Nat.eqb code 62 then fas_query v o
+  else if Nat.eqb code 65 then steiner_query v o
   else if Nat.ltb code 66 then misc_query debug v o
   else if Nat.eqb code 66 then []      (* page_rank: floating point, judged outside the model *)
   else if Nat.eqb code 67 then prank_query v o
